@@ -1060,6 +1060,9 @@ class Executor(object):
             return And(Not(Eq(v.t, IntC(0))), Not(Eq(Len(self.list_content(st, inner)), IntC(0))))
         if v.pt.kind in ('dict', 'ddict'):
             return Not(Eq(Len(self.dict_keys(st, v)), IntC(0)))
+        if v.pt.kind == 'opt' and v.pt.args[0].kind in ('dict', 'ddict'):
+            inner = SV(v.pt.args[0], v.t)
+            return And(Not(Eq(v.t, IntC(0))), Not(Eq(Len(self.dict_keys(st, inner)), IntC(0))))
         if v.pt.kind == 'pytuple':
             return BoolC(len(v.py) > 0)
         if v.pt.kind in ('func', 'class', 'module'):
@@ -1602,6 +1605,11 @@ class Executor(object):
                 return SV(PT('func'), py=('closure', self.program.functions[cand][1], cand))
             if cand in self.program.classes:
                 return SV(PT('class'), py=cand)
+        cand = '%s.%s' % (self.cur_module, n.id)
+        c = self.reg.contracts.get(cand)
+        if c is not None and c.trusted and cand not in self.program.functions:
+            # a function of the module that is outside the subset (not extracted / translated) but has an ASSUMED contract: call by that contract
+            return SV(PT('func'), py=('func', cand))
         raise OutOfSubset('unknown name %s at line %d' % (n.id, getattr(n, 'lineno', 0)))
 
     def builtin_name(self, name):
